@@ -15,7 +15,7 @@ CHECKS = {
    note="Trusted: vk/ref/stv.py as the reading of the statement. Runs whose constructor raises are judged by C01.",
    ref="§4 C02"),
  "C03": dict(
-   technique="runtime monitor: function-level conservation oracle on fractional_transfer/random_transfer; law-mode interposition on random.sample (population and k), forced subsets; per-round weight balance of real STV runs against the reference",
+   technique="runtime monitor: function-level conservation oracle on fractional_transfer/random_transfer; law-mode interposition on random.sample (population and k), forced subsets; per-round weight balance of real STV runs decided both against the reference trace and locally on the observed input/output profiles of every step (_run_step wrapper)",
    text="Direct transfer calls and whole STV runs are observed; outputs must be winner-free images of the inputs with exactly the prescribed weights, the random rule must hand random.sample exactly the unit expansion of the winner's transferable ballots with k = tally-threshold and return other ballots + the drawn subset; per round the weight drop must equal threshold*quota-elected + exhausted weight.",
    note="Trusted: random.sample is a uniform k-subset (equal likelihood is decided at the primitive's arguments, not by frequency). Short piles (known finding of C01) only demand that no vote is created.",
    ref="§4 C03"),
@@ -30,7 +30,7 @@ CHECKS = {
    note="Trusted: acceptance predicate evaluated on the stored (rounded to denominator<=10^6) scores.",
    ref="§4 C05"),
  "C06": dict(
-   technique="runtime monitor: reference margins, brute-force dominating tiers, defining tier properties asserted on the returned tiers (all bipartitions), Condorcet equivalences, DominatingSets/CondoBorda outcome oracle",
+   technique="runtime monitor: reference margins, brute-force dominating tiers, defining tier properties asserted on the returned tiers (all bipartitions), Condorcet equivalences, generated query sequences on the same graph object (purity), DominatingSets/CondoBorda outcome oracle",
    text="PairwiseComparisonGraph, DominatingSets and CondoBorda are run on profiles with cycles, nested cycles, pairwise ties, partial ballots and zero-vote candidates; margins, tiers and winners are compared with independent exact computations.",
    note="n <= 6 (quick) / 7 (thorough): ballot_fill is factorial in the number of missing candidates.",
    ref="§4 C06"),
@@ -70,7 +70,7 @@ CHECKS = {
    note="Alaska constructions that raise (known finding replay-redraw of C01) are not compared.",
    ref="§4 C13"),
  "C14": dict(
-   technique="runtime monitor: structural well-formedness post-conditions on every generator entry point; Huntington-Hill validity oracle (divisor min-max inequality) for bloc sizes and crossover splits",
+   technique="runtime monitor: structural well-formedness post-conditions on every generator entry point (by_bloc and plain, direct and from_params construction); Huntington-Hill validity oracle (divisor min-max inequality) for bloc sizes and crossover splits",
    text="All generator classes and entry points (generate_profile, by_bloc, MCMC variants, generate_profile_with_dict) are run on generated parameter sets (1-3 blocs, slate sizes 1-3, 0/1 cohesion and proportions, zero-support candidates, N from 1); totals, integer weights, declared candidates, completeness, final zero-support tie, short-PL length, cumulative points, bloc additivity and apportionment are asserted.",
    note="Known findings by mechanism: apportionment library hands ballots to zero-proportion types when N < #types; MCMC samplers crash on single-state chains.",
    ref="§4 C14"),
@@ -85,7 +85,7 @@ CHECKS = {
    note="Frequency tests only bound deviations above the stated threshold (~2.5% quick, ~0.8% thorough).",
    ref="§4 C16"),
  "C17": dict(
-   technique="law-mode RNG interposition on random.choices / random.uniform / np.random.choice / random.sample along scripted paths, closed-form recursion for winner sequences, frequency tests with Hoeffding thresholds",
+   technique="law-mode RNG interposition on random.choices / random.uniform / np.random.choice / random.sample along scripted paths, closed-form recursion for winner sequences, exact single-draw law extraction (grid + bisection on a scripted uniform) when the draw does not go through random.choices, frequency tests with Hoeffding thresholds",
    text="RandomDictator and BoostedRandomDictator are run under scripted streams: each ballot draw must offer exactly the current profile's ballots with their weights (induced law = first-place share with ties split), the boosted rule's branch is probed at u = tau +- 1e-9 for every tau = 1/(c-1), the squares branch's (candidates, p) compared with squared shares; random tiebreaks must permute exactly the tied set uniformly and be recorded as drawn; winner-sequence frequencies are compared with the closed form.",
    note="Trusts the documented semantics of the primitives; frequency tests bound only deviations above the threshold.",
    ref="§4 C17"),
